@@ -116,12 +116,21 @@ if __name__ == "__main__":
     try:
         if sys.argv[1] == "all":
             ensure_makefile()
-            print(make([f[:-2] + ".vo" for f in coq_files() if not f.startswith("extract/")], timeout=3000)[-2000:])
+            # keep going: a file that no longer compiles (e.g. a tie lemma broken by an edit of /repo) must not stop
+            # the other properties from building; the affected check reports it as a broken obligation
+            try:
+                print(make([f[:-2] + ".vo" for f in coq_files() if not f.startswith("extract/")], timeout=3000, keep_going=True)[-2000:])
+            except BuildError as e:
+                print("SOME FILES DID NOT BUILD (reported by the affected checks):")
+                print("\n".join(l for l in e.output.splitlines() if l.startswith("File ") or "Error" in l)[-3000:])
             for f in coq_files():
                 if f.startswith("extract/X_"):
                     nm = os.path.basename(f)[2:-2]
                     fl = "ExtrOCamlFloats" in open(os.path.join(COQ, f)).read()
-                    print("runner", nm, build_runner(nm, floats=fl))
+                    try:
+                        print("runner", nm, build_runner(nm, floats=fl))
+                    except BuildError as e:
+                        print("runner", nm, "FAILED:", e.what)
         elif sys.argv[1] == "make":
             print(make(sys.argv[2:])[-3000:])
         elif sys.argv[1] == "runner":
